@@ -73,12 +73,15 @@ def rounds_case(rng, hw="generic"):
     body_spec = [(rng.choice("xyz"), rng.choice(["t0", "t1", "angle"]), rng.choice([1, 2, 3, 4])) for _ in range(nrot)]
     extra = [rng.choice(["h", "x", "z", "s"]) for _ in range(rng.choice([0, 2, 5]))]
     style = rng.choice(["reg", "array"])
+    dtmpl = rng.choice([None, None, None, "same", "other"])
     prog, values = [], []
     for r_ in range(nrounds):
         q = f"q{r_}"
         prog.append({"op": "qalloc", "q": q})
-        for axis, t, d in body_spec:
-            prog.append({"op": "rot", "axis": axis, "q": q, "n": {"tmpl": t}, "d": d})
+        for j_, (axis, t, d) in enumerate(body_spec):
+            # now and then the denominator is a template too - the same name as the numerator, or another one
+            dd = {"tmpl": t if dtmpl == "same" else "t1"} if (dtmpl and j_ == 0) else d
+            prog.append({"op": "rot", "axis": axis, "q": q, "n": {"tmpl": t}, "d": dd})
         for g in extra:
             prog.append({"op": "gate", "g": g, "q": q})
         to = {"kind": "reg", "name": f"mr{r_}"} if style == "reg" else {"kind": "new", "name": f"m{r_}"}
